@@ -551,6 +551,8 @@ class Folder:
                     return (min if name == "min" else max)(*args)
                 if name == "sum" and len(args) == 1 and is_known(args[0]):
                     return sum(args[0])
+                if name == "slice" and 1 <= len(args) <= 3 and all(a is None or (isinstance(a, int) and not isinstance(a, bool)) for a in args):
+                    return slice(*args)
                 return UNKNOWN
             callee = ev(f)
             if isinstance(callee, ClassRef) and not has_star:
